@@ -3,8 +3,10 @@ import json, os
 from vlib import core
 
 THEOREMS = ['consts', 'ack_conservation', 'ack_fifo', 'ka_outcome', 'no_drop_within_backlog', 'only_acks_for_keepalives',
-            'ack_frames_are_acks', 'ack_priority', 'pickReq_returns_to_top', 'drain_writes_all']
-MODULES = ['LLRP.Model.ClientLTS', 'LLRP.Oracle.LTSim', 'LLRP.Model.AckLTS', 'LLRP.Model.WriteSide', 'LLRP.Model.WriteMonitor', 'LLRP.Proofs.WriteSide', 'LLRP.Oracle.C07', 'LLRP.Oracle.C05']
+            'ack_frames_are_acks', 'ack_priority', 'pickReq_returns_to_top', 'drain_writes_all',
+            # about the go2seq translation of the write loop, for every behaviour of the environment
+            'src_acks']
+MODULES = ['LLRP.Model.GoSeq', 'LLRP.Proofs.SeqWriteLoop', 'LLRP.Model.ClientLTS', 'LLRP.Oracle.LTSim', 'LLRP.Model.AckLTS', 'LLRP.Model.WriteSide', 'LLRP.Model.WriteMonitor', 'LLRP.Proofs.WriteSide', 'LLRP.Oracle.C07', 'LLRP.Oracle.C05']
 RULE = ('deterministic environment scripts against the real client over net.Pipe with a peer whose reads can be stalled and resumed (each event waits for its '
         'observable through a ClientLogger: handler returned / header about to be written): keep-alives before, after and between requests '
         '(every position of a 4-request script), ids 0, 1, 2^31, 2^32-1, random, duplicates and ids equal to outstanding request ids; after '
